@@ -42,6 +42,9 @@ def check_case(run, case, tier='quick'):
             run.violation(f'unlimited run raised {U.exc!r}', case, observed=U.stderr[-300:]); return
         if U.stdout != '':
             run.violation('the tool wrote to stdout outside print_guess (in-process capture)', case, observed=U.stdout[:200]); return
+        if U.stdout_missing:
+            run.violation(f'{len(U.stdout_missing)} guess(es) handed to print_guess never reached standard output (they were written somewhere else)', case,
+                          observed=U.stdout_missing[:5]); return
         Ug = U.guesses
         total = len(Ug)
         if total < 3 or total > 6000:
@@ -108,15 +111,20 @@ def check_case(run, case, tier='quick'):
         # ---- status / help / quit requests from the keyboard thread must never reach stdout either, whatever the session's age
         from .. import sched
         U0, s0 = sched.run_scheduled(['-r', name, '-s', sn] + fl)
-        for act in ('', 'h', 'q', ''):
+        for act in ('', 'h', 'q', '', 'h'):
             age = rng.choice([None, 3600, 86400, 172800, 250000, 10 ** 8])
             p = rng.randint(1, max(1, s0.m_idx))
             session.drop_session(sn)
-            r, sc = sched.run_scheduled(['-r', name, '-s', sn] + fl, [sched.Step(p, act)], age=age)
+            # the helper thread either acts at once or is parked in the middle of its answer (inside the status report / the help screen) while guesses go on
+            hold = rng.choice([None, None, 'in:print_status', 'in:print_help', 'in:get_status', rng.randint(1, 60)])
+            r, sc = sched.run_scheduled(['-r', name, '-s', sn] + fl, [sched.Step(p, act, hold, p + rng.randint(1, 60))], age=age)
             run.ev('status_request_runs')
             if r.stdout != '':
                 run.violation(f'a {act!r} request at yield point {p} (session age {age}s) made the tool write to stdout outside the guess stream', case,
                               observed=r.stdout[:120]); return
+            if r.stdout_missing:
+                run.violation(f'{len(r.stdout_missing)} guess(es) handed to print_guess never reached standard output (they were written somewhere else)', case,
+                              observed=r.stdout_missing[:5]); return
         # ---- the process boundary: stdout bytes == the stream
         ref = ('\n'.join(Ug) + '\n').encode('utf-8')
         picks = [None] + rng.sample(Ns, min(len(Ns), SPAWNS[tier] - 1))
